@@ -903,6 +903,7 @@ static inline u64 irc_fshr(u64 a,u64 b,u64 c,int w){ c%=w; if(c==0) return b; re
 LIBC_MAP={'memcmp':'memcmp((const void*)%s,(const void*)%s,%s)','strlen':'strlen((const char*)%s)','memchr':'irc_memchr((u8*)%s,(int)%s,%s)','bcmp':'memcmp((const void*)%s,(const void*)%s,%s)'}
 RUNTIME_MODELS={
  '__cxa_atexit':'return 0;',
+ 'ldexp':'if (a0 == 0.0) return a0; u64 b = irc_d2bits(a0); s64 ex = (s64)((b >> 52) & 0x7ff) + (s64)(s32)a1; IRC_ASSERT(ex > 0 && ex < 2047, "ldexp model bound: operand and result are normal doubles (exact scaling by a power of two)"); __CPROVER_assume(ex > 0 && ex < 2047); b = (b & ~(0x7ffULL << 52)) | ((u64)ex << 52); return irc_bits2d(b);',
  'localeconv':'static u8 irc_dp[2] = {46, 0}; static RETBASE irc_lc; irc_lc.f0 = irc_dp; return &irc_lc;',   # "C" locale: decimal_point "."; other lconv fields are not read by jsoncons
  '__assert_fail':'IRC_ASSERT(0,"C assert() failed in the code under test"); __CPROVER_assume(0);',
  '__cxa_guard_acquire':'return *(u8*)a0 == 0;',
